@@ -213,6 +213,15 @@ def rule_repaint(ctx: Ctx) -> RuleResult:
             rr.add(finding("INV", ds, r.stmt, f"`{norm(r.stmt, 40)}` can be reached without passing the loop that writes the output: a draw that was abandoned is remembered as being on the terminal", construct=f"{norm(r.stmt, 40)} before the write loop"))
     if len(rec) < 2:
         rr.add(finding("INV", ds, ds.node, "draw_screen does not record both screen_buf and _screen_buf_canvas", construct="screen buffer not recorded"))
+    # the "same canvas object as last time" shortcut is valid only while the terminal still shows that canvas: clear(),
+    # a resize and _stop() announce the opposite by resetting screen_buf - the shortcut has to read it
+    shortcuts = [n for n in cfg.nodes if n.kind == "test" and any(isinstance(x, ast.Attribute) and x.attr == "_screen_buf_canvas" for x in ast.walk(n.ast))]
+    rr.inst("identity shortcut reads screen_buf", True, {"shortcut_tests": [norm(n.ast, 60) for n in shortcuts]})
+    for n in shortcuts:
+        own = any(isinstance(x, ast.Attribute) and x.attr == "screen_buf" for x in ast.walk(n.ast))
+        dom = any(t.kind == "test" and t is not n and any(isinstance(x, ast.Attribute) and x.attr == "screen_buf" for x in ast.walk(t.ast)) and n not in ExcEngine._reach_without_edge(cfg, t, "T") for t in cfg.nodes)
+        if not (own or dom):
+            rr.add(finding("INV", ds, n.stmt, f"`{norm(n.ast, 60)}` skips the draw because the canvas object is the one drawn last, without consulting screen_buf: after clear(), a resize or stop/start (which reset screen_buf because the terminal no longer shows that canvas) the same canvas is never repainted", construct="identity shortcut ignores screen_buf"))
     # a resize signalled while the canvas content was being walked: the output computed for the old size must not be
     # written nor remembered - `self._resized` is tested again after the content loop
     content_loops = [h for h in cfg.nodes if h.kind == "for" and "content" in ast.unparse(h.ast.iter)]
@@ -395,6 +404,7 @@ def run(ctx: Ctx):
 _RW = "urwid/display/_raw_display_base.py"
 _HT = "urwid/display/html_fragment.py"
 MUTANTS = [
+    Mut("identity-shortcut-ignores-clear", _RW, "urwid.display._raw_display_base.Screen.draw_screen", "if self.screen_buf and canvas is self._screen_buf_canvas:", "if canvas is self._screen_buf_canvas:", "INV|display._raw_display_base.Screen.draw_screen|identity shortcut"),
     Mut("html-cursor-by-characters", _HT, "HtmlGenerator.draw_screen", "run_width = str_util.calc_width(t_run, 0, len(t_run))", "run_width = len(t_run)", "KIND|display.html_fragment.HtmlGenerator.draw_screen"),
     Mut("back-step-width-of-inserted", _RW, "urwid.display._raw_display_base.Screen._last_row", "return new_row, str_util.calc_width(z_text, 0, len(z_text)), (y_attr, y_cs, y_text)", "return new_row, z_col - y_col, (y_attr, y_cs, y_text)", "TRIPLE|display._raw_display_base.Screen._last_row|back-step"),
     Mut("twin-back-step-via-local", _RW, "urwid.display._raw_display_base.Screen._last_row", "        return new_row, str_util.calc_width(z_text, 0, len(z_text)), (y_attr, y_cs, y_text)", "        zw = str_util.calc_width(z_text, 0, len(z_text))\n        return new_row, zw, (y_attr, y_cs, y_text)", twin=True),
